@@ -1,73 +1,153 @@
 """C13 — a pipeline item acts exactly where its conditions hold.
 
-A probe item (add_fieldname_suffix '_X') with randomly drawn rule / detection-item / field-name condition
-groups (0..2 conditions of every built-in type, linking and/or/expression, negation flags) runs after
-pre-items that set state, rename a field and change the log source.  Observable: which detection items
-carry the suffix after `ProcessingPipeline.apply(rule)`.  Expected: each condition's truth value is computed
-by an independent evaluator from the rule document and the documented effect of the pre-items; the Lean
-model (`Gate`) combines them by linking / negation / expression and decides where the item must act."""
+A probe item (add_fieldname_suffix '_X', or drop_detection_item) with randomly drawn rule / detection-item /
+field-name condition groups (0..2 conditions of every registered condition type, linking and/or/expression,
+negation flags) runs after pre-items that set state, rename a field and change the log source.  Observable: which
+detection items carry the suffix / disappeared after `ProcessingPipeline.apply(rule)`, whether the probe is recorded
+as applied, and the field names of all items afterwards.
+
+Expected: the Lean specification `Spec/PipeConds.lean` (documented meaning of every condition, documented effect of
+the pre-items on what later conditions see) evaluated by the driver op `gate.case` on the ORIGINAL rule document and
+the pipeline description; theorems in `Props/C13.lean` (`probe_acts_iff`, `spec_flags_eq_gate_run`, …) tie it to the
+gate model.  The harness contributes the reading of the rule document (fields, values, attributes) and the
+regular-expression match tables (Python `re.match`).
+
+A second, independent evaluator of the individual conditions in Python (`world`, `rule_cond`, `det_cond`,
+`field_cond_item`, `field_cond_name`) is compared leaf by leaf with Lean; a disagreement is reported as drift.
+
+Documentation vs code (the specification follows the documentation). D70-D72 were genuine defects found by this check and are
+repaired in /repo (767df1a, 957b624): they are no longer listed in known_findings.json, so a recurrence is a VIOLATION; the
+classifiers below only attribute it:
+  * D70  rule_attribute on an attribute holding an int answers True under every relation;
+  * D71  rule_attribute with op in/not_in on a non-list attribute raises KeyError, not SigmaConfigurationError;
+  * D72  a field-name transformation records a detection item as processed when a field reference in it satisfied the
+         field-name conditions, even if the transformation has no new name for the referenced field;
+  * processing_state ordering a string against a number raises TypeError (undocumented; not generated);
+  * match_value: the number 1 equals the parameter true in the code (SigmaNumber.__eq__ accepts bool); not generated;
+  * track_field_processing_items forgets the source name (documentation: keeps it); not observable here;
+  * FieldNameProcessingItemAppliedCondition on a detection item reads the item's set (documentation silent)."""
 from __future__ import annotations
 import copy, random, re
+from decimal import Decimal
 from .common import Verdict, cps, outcome_of_exception
 
 ID = "C13"
-GEN = ["PipeCond"]
-RULE = ("probe item with three condition groups x {0,1,2 conditions} drawn from every built-in condition type (logsource, "
-        "contains_field, contains_detection_item, processing_item_applied, processing_state, is_sigma_rule, rule_attribute, tag; "
-        "match_string, match_value, contains_wildcard, is_null, processing_item_applied, processing_state; include_fields, "
-        "exclude_fields (plain/re), processing_state) x linking {and, or, expression of size <= 5} x negation flags, list- or "
-        "map-form; preceded by items that set state, rename a field, change the log source (each optionally conditioned); "
-        "distinct = distinct pipeline; non-trivial = at least one condition group with >= 1 condition")
+GEN = ["PipeCond", "PipeCondKinds"]
+RULE = ("probe item with three condition groups x {0,1,2 conditions} drawn from every registered condition type (logsource, "
+        "contains_field, contains_detection_item, processing_item_applied, processing_state (6 relations, string/number), "
+        "is_sigma_rule, is_sigma_correlation_rule, rule_attribute (string, number, date, level, status, list; valid and "
+        "invalid relations), tag; match_string (any/all, negate), match_value, contains_wildcard, is_null, "
+        "processing_item_applied, processing_state; include_fields, exclude_fields (plain/re), processing_item_applied, "
+        "processing_state) x linking {and, or, expression of size <= 5} x negation flags, list- or map-form; preceded by items "
+        "that set state, rename a field (also in a field reference), change the log source (each optionally conditioned); "
+        "suffix probe on a rule without / with field references, drop probe on a rule with field references, optionally "
+        "after the same pipeline object converted another rule; distinct = distinct pipeline; non-trivial = at least one "
+        "condition group with >= 1 condition")
 ASSUMPTIONS = [
-    "individual condition semantics are re-implemented from their documentation in this harness (spec evaluator); Lean decides only their combination",
-    "field-name 'processing_item_applied' conditions are not generated (their bookkeeping depends on the rule's fields list)",
-    "Python re decides regular-expression matches of match_string / include_fields(re)",
+    "trusted Python: reading of the rule document into the specification's World (flat detection items, value kinds, attribute types) and the pipeline description",
+    "regular-expression matching (match_string, include_fields/exclude_fields in re mode) is a parameter of the Lean specification: a table computed by Python re.match per request; the driver refuses a request whose table lacks an entry it needs",
+    "all registered condition identifiers are generated (obligation gen_every_condition_kind_classified); on correlation rules only the rule-level gate is observed, with unresolved rule references (logsource on a correlation rule with resolved references is not generated)",
+    "processing_state: ordering a string against a number is not generated (undocumented; the code raises TypeError)",
+    "rule_attribute: numeric strings are [+-]?digits, dates YYYY-MM-DD; attributes holding None/objects count as unsupported",
+    "match_value with a boolean parameter is not generated against items holding the numbers 0/1",
+    "1:1 field_name_mapping only; keyword items (field None) and the rule's fields list are not generated",
+    "conditions of an item are evaluated on the world left by the EARLIER items; the code's own tracking moves while the probe runs are not observable on the generated documents",
 ]
 
-RULEDOC = {"title": "t", "level": "high", "tags": ["attack.t1234"], "logsource": {"category": "cat", "product": "prod"},
-           "detection": {"sel": {"fieldA": "valueA", "fieldB": ["x*", "y"], "fieldC": None, "fieldD": [1, "x1"]},
+RULEDOC = {"title": "t", "level": "high", "status": "test", "date": "2024-01-05", "tags": ["attack.t1234"], "references": ["r1", "r2"],
+           "score": 5, "ratio": 2.5, "logsource": {"category": "cat", "product": "prod"},
+           "detection": {"sel": {"fieldA": "valueA", "fieldB": ["x*", "y"], "fieldC": None, "fieldD": [1, "x1"], "fieldH": [True, 2]},
                          "flt": [{"fieldA": "other"}, {"fieldE": "*w*"}], "condition": "sel and not flt"}}
-ITEMS = [("sel", "fieldA", ["valueA"]), ("sel", "fieldB", ["x*", "y"]), ("sel", "fieldC", [None]), ("sel", "fieldD", [1, "x1"]),
-         ("flt", "fieldA", ["other"]), ("flt", "fieldE", ["*w*"])]
-
-# the drop probe runs on a rule that also has field references: a field-name condition holds on a detection item when it
-# holds for the item's field OR for a field referenced in its values (FieldNameProcessingCondition.match_detection_item)
+# the drop probe (and part of the suffix probes) runs on a rule that also has field references: a field-name condition
+# holds on a detection item when it holds for the item's field OR for a field referenced in its values
 RULEDOC_REF = copy.deepcopy(RULEDOC)
 RULEDOC_REF["detection"]["sel"]["fieldF|fieldref"] = "fieldA"
-RULEDOC_REF["detection"]["sel"]["fieldG|fieldref"] = "fieldZ"
-ITEMS_REF = ITEMS[:4] + [("sel", "fieldF", []), ("sel", "fieldG", [])] + ITEMS[4:]
-REFS = {"fieldF": ["fieldA"], "fieldG": ["fieldZ"]}
+RULEDOC_REF["detection"]["sel"]["fieldG|fieldref"] = "fieldB"
 # a rule converted BEFORE the probed one with the same pipeline object: nothing of it may remain visible
-PRIOR_DOC = {"title": "prior", "level": "low", "tags": [], "logsource": {"category": "zzz", "product": "other"},
+PRIOR_DOC = {"title": "prior", "level": "low", "status": "stable", "date": "2020-02-02", "tags": [], "references": ["zz"], "score": 9, "ratio": 0.5,
+             "logsource": {"category": "zzz", "product": "other"},
              "detection": {"s": {"fieldB": "q", "fieldQ": 2}, "condition": "s"}}
+# a correlation rule: only the rule-level gate is observable (no detection items)
+CORR_DOC = {"title": "t", "level": "high", "status": "test", "date": "2024-01-05", "tags": ["attack.t1234"], "references": ["r1", "r2"], "score": 5, "ratio": 2.5,
+            "correlation": {"type": "event_count", "rules": ["some_rule"], "group-by": ["fieldB"], "timespan": "5m", "condition": {"gte": 10}}}
+INT_ATTRS = ("score",)         # attributes holding a Python int (D70)
+LEVELS = ["informational", "low", "medium", "high", "critical"]
+STATUSES = ["unsupported", "deprecated", "experimental", "test", "stable"]
 
 RULE_CONDS = [
     {"type": "logsource", "category": "cat"}, {"type": "logsource", "category": "newcat"}, {"type": "logsource", "product": "prod", "service": "svc"},
+    {"type": "logsource", "category": "cat", "product": "prod"}, {"type": "logsource", "product": "prod"},
     {"type": "contains_field", "field": "fieldB"}, {"type": "contains_field", "field": "mappedB"}, {"type": "contains_field", "field": "nope"},
+    {"type": "contains_field", "field": "field"}, {"type": "contains_field", "field": "fieldE"}, {"type": "contains_detection_item", "field": "field", "value": "valueA"},
+    {"type": "contains_detection_item", "field": "fieldA", "value": "value"}, {"type": "contains_detection_item", "field": "fieldA", "value": "other"},
     {"type": "contains_detection_item", "field": "fieldA", "value": "valueA"}, {"type": "contains_detection_item", "field": "fieldD", "value": 1},
-    {"type": "contains_detection_item", "field": "fieldA", "value": "nope"},
+    {"type": "contains_detection_item", "field": "fieldA", "value": "nope"}, {"type": "contains_detection_item", "field": "fieldD", "value": "1"},
+    {"type": "contains_detection_item", "field": "fieldD", "value": 1.0}, {"type": "contains_detection_item", "field": "fieldH", "value": True},
+    {"type": "contains_detection_item", "field": "fieldD", "value": True}, {"type": "contains_detection_item", "field": "mappedB", "value": "x*"},
     {"type": "processing_item_applied", "processing_item_id": "state"}, {"type": "processing_item_applied", "processing_item_id": "map"},
-    {"type": "processing_item_applied", "processing_item_id": "nothere"},
+    {"type": "processing_item_applied", "processing_item_id": "nothere"}, {"type": "processing_item_applied", "processing_item_id": "ls"},
     {"type": "processing_state", "key": "k", "val": "v"}, {"type": "processing_state", "key": "k", "val": "w", "op": "ne"},
-    {"type": "processing_state", "key": "n", "val": 5, "op": "gte"},
+    {"type": "processing_state", "key": "n", "val": 5, "op": "gte"}, {"type": "processing_state", "key": "n", "val": 5, "op": "gt"},
+    {"type": "processing_state", "key": "n", "val": 7, "op": "lt"}, {"type": "processing_state", "key": "n", "val": 5.0, "op": "eq"},
+    {"type": "processing_state", "key": "n", "val": 4.5, "op": "lte"}, {"type": "processing_state", "key": "k", "val": "u", "op": "gt"},
+    {"type": "processing_state", "key": "zz", "val": "v", "op": "ne"}, {"type": "processing_state", "key": "k", "val": "va", "op": "lte"},
+    {"type": "processing_state", "key": "k", "val": "v", "op": "gte"}, {"type": "processing_state", "key": "k", "val": "v", "op": "lt"},
+    {"type": "processing_state", "key": "n", "val": 5, "op": "lte"}, {"type": "processing_state", "key": "n", "val": 5, "op": "ne"},
+    {"type": "processing_state", "key": "k", "val": 5}, {"type": "processing_state", "key": "n", "val": "5"}, {"type": "processing_state", "key": "n", "val": "5", "op": "ne"},
     {"type": "is_sigma_rule"}, {"type": "is_sigma_correlation_rule"},
     {"type": "rule_attribute", "attribute": "level", "value": "medium", "op": "gte"}, {"type": "rule_attribute", "attribute": "title", "value": "t"},
+    {"type": "rule_attribute", "attribute": "level", "value": "HIGH", "op": "eq"}, {"type": "rule_attribute", "attribute": "level", "value": "critical", "op": "lt"},
+    {"type": "rule_attribute", "attribute": "level", "value": "low", "op": "ne"}, {"type": "rule_attribute", "attribute": "level", "value": "high", "op": "gt"},
+    {"type": "rule_attribute", "attribute": "level", "value": "high", "op": "gte"}, {"type": "rule_attribute", "attribute": "level", "value": "High", "op": "lte"},
+    {"type": "rule_attribute", "attribute": "level", "value": "high", "op": "lt"}, {"type": "rule_attribute", "attribute": "status", "value": "test", "op": "gte"},
+    {"type": "rule_attribute", "attribute": "status", "value": "test", "op": "gt"}, {"type": "rule_attribute", "attribute": "status", "value": "experimental", "op": "eq"},
+    {"type": "rule_attribute", "attribute": "date", "value": "2024-01-05", "op": "gte"}, {"type": "rule_attribute", "attribute": "date", "value": "2024-01-05", "op": "ne"},
+    {"type": "rule_attribute", "attribute": "ratio", "value": 2.5, "op": "gte"}, {"type": "rule_attribute", "attribute": "ratio", "value": 2.5, "op": "gt"},
+    {"type": "rule_attribute", "attribute": "status", "value": "test", "op": "lte"}, {"type": "rule_attribute", "attribute": "status", "value": "stable", "op": "gte"},
+    {"type": "rule_attribute", "attribute": "title", "value": "x", "op": "ne"}, {"type": "rule_attribute", "attribute": "title", "value": 5},
+    {"type": "rule_attribute", "attribute": "date", "value": "2024-01-06", "op": "lt"}, {"type": "rule_attribute", "attribute": "date", "value": "2024-01-05", "op": "gt"},
+    {"type": "rule_attribute", "attribute": "date", "value": "2023-12-31", "op": "lte"},
+    {"type": "rule_attribute", "attribute": "ratio", "value": 2.5}, {"type": "rule_attribute", "attribute": "ratio", "value": 3, "op": "lt"},
+    {"type": "rule_attribute", "attribute": "ratio", "value": "2", "op": "lte"}, {"type": "rule_attribute", "attribute": "ratio", "value": 2.5, "op": "ne"},
+    {"type": "rule_attribute", "attribute": "score", "value": 5}, {"type": "rule_attribute", "attribute": "score", "value": 7, "op": "gte"},
+    {"type": "rule_attribute", "attribute": "references", "value": "r1", "op": "in"}, {"type": "rule_attribute", "attribute": "references", "value": "zz", "op": "in"},
+    {"type": "rule_attribute", "attribute": "references", "value": "zz", "op": "not_in"}, {"type": "rule_attribute", "attribute": "references", "value": "r1", "op": "eq"},
+    {"type": "rule_attribute", "attribute": "references", "value": "r1", "op": "ne"}, {"type": "rule_attribute", "attribute": "references", "value": "r1", "op": "gte"},
+    {"type": "rule_attribute", "attribute": "nosuch", "value": "x"}, {"type": "rule_attribute", "attribute": "nosuch", "value": "x", "op": "ne"},
+    # relations the documentation says raise SigmaConfigurationError when the condition is evaluated
+    {"type": "rule_attribute", "attribute": "level", "value": "bogus"}, {"type": "rule_attribute", "attribute": "level", "value": 3},
+    {"type": "rule_attribute", "attribute": "title", "value": "t", "op": "gte"}, {"type": "rule_attribute", "attribute": "ratio", "value": "abc"},
+    {"type": "rule_attribute", "attribute": "date", "value": "yesterday"}, {"type": "rule_attribute", "attribute": "author", "value": "x"},
+    {"type": "rule_attribute", "attribute": "level", "value": "low", "op": "in"}, {"type": "rule_attribute", "attribute": "logsource", "value": "x"},
     {"type": "tag", "tag": "attack.t1234"}, {"type": "tag", "tag": "attack.t9999"},
 ]
 DET_CONDS = [
     {"type": "match_string", "cond": "any", "pattern": "^x"}, {"type": "match_string", "cond": "all", "pattern": "^x"},
     {"type": "match_string", "cond": "any", "pattern": "^x", "negate": True}, {"type": "match_string", "cond": "all", "pattern": "a"},
+    {"type": "match_string", "cond": "all", "pattern": "^x", "negate": True}, {"type": "match_string", "cond": "any", "pattern": "1$"},
+    {"type": "match_string", "cond": "any", "pattern": ".*w"}, {"type": "match_string", "cond": "all", "pattern": "[vo]", "negate": True},
     {"type": "match_value", "cond": "any", "value": "valueA"}, {"type": "match_value", "cond": "any", "value": 1},
+    {"type": "match_value", "cond": "any", "value": "x*"}, {"type": "match_value", "cond": "all", "value": "valueA"},
+    {"type": "match_value", "cond": "any", "value": 2}, {"type": "match_value", "cond": "any", "value": "1"},
     {"type": "contains_wildcard", "cond": "any"}, {"type": "contains_wildcard", "cond": "all"},
     {"type": "is_null", "cond": "all"}, {"type": "is_null", "cond": "any"},
     {"type": "processing_item_applied", "processing_item_id": "map"}, {"type": "processing_item_applied", "processing_item_id": "nothere"},
-    {"type": "processing_state", "key": "k", "val": "v"},
+    {"type": "processing_item_applied", "processing_item_id": "state"},
+    {"type": "processing_state", "key": "k", "val": "v"}, {"type": "processing_state", "key": "n", "val": 5, "op": "lte"},
+    {"type": "processing_state", "key": "zz", "val": 1, "op": "ne"},
 ]
 FIELD_CONDS = [
     {"type": "include_fields", "fields": ["fieldA", "mappedB"]}, {"type": "exclude_fields", "fields": ["fieldA"]},
     {"type": "include_fields", "fields": ["field[AC]$", "^mapped"], "mode": "re"}, {"type": "exclude_fields", "fields": ["^field[BD]"], "mode": "re"},
     {"type": "include_fields", "fields": ["fieldB"]}, {"type": "processing_state", "key": "k", "val": "v"},
+    {"type": "exclude_fields", "fields": ["[BD]$"], "mode": "re"}, {"type": "include_fields", "fields": ["ield[A-D]", "field"], "mode": "re"},
+    {"type": "exclude_fields", "fields": ["fieldA", "fieldF", "fieldG"]}, {"type": "include_fields", "fields": ["field."], "mode": "plain"},
+    {"type": "exclude_fields", "fields": ["field.$"], "mode": "re"}, {"type": "include_fields", "fields": ["field", "mapped", "A"]},
+    {"type": "exclude_fields", "fields": ["B", "field", "fieldAA"]}, {"type": "include_fields", "fields": []}, {"type": "exclude_fields", "fields": [], "mode": "re"},
+    {"type": "processing_item_applied", "processing_item_id": "map"}, {"type": "processing_item_applied", "processing_item_id": "nothere"},
+    {"type": "processing_state", "key": "n", "val": 6, "op": "lt"},
 ]
+STR_KEYS = ("category", "product", "service", "field", "processing_item_id", "key", "attribute", "tag", "pattern")
 
 
 def rand_expr(rnd, ids, depth=2):
@@ -83,7 +163,12 @@ def rand_expr(rnd, ids, depth=2):
 
 def gen_group(rnd, pool):
     n = rnd.choice([0, 0, 1, 1, 2, 2])
-    conds = [copy.deepcopy(rnd.choice(pool)) for _ in range(n)]
+    kinds = sorted({c["type"] for c in pool})
+    # the condition type first (every registered type equally often), then one of its parameterisations
+    conds = []
+    for _ in range(n):
+        k = rnd.choice(kinds)
+        conds.append(copy.deepcopy(rnd.choice([c for c in pool if c["type"] == k])))
     g = {"conds": conds, "neg": rnd.random() < 0.35, "link": rnd.choice(["and", "or", None])}
     if n >= 1 and rnd.random() < 0.35:
         ids = [rnd.choice(["c", "notlinux", "and_x", "a-1", "or2"]) + str(i) for i in range(n)]
@@ -113,8 +198,19 @@ def gen_cases(tier, seed, gen, effort):
             c["probe"] = "drop"                    # item-level marker on a rule with field references
             c["det"] = {"conds": [], "neg": False, "link": None}
             c["prior"] = rnd.random() < 0.3
+        elif r < 0.6:
+            c["doc"] = "ref"                       # suffix probe on the rule with field references
+        elif r < 0.66:
+            c["doc"] = "corr"                      # a correlation rule (unresolved references): rule-level gate only
+            c["det"] = {"conds": [], "neg": False, "link": None}
         cases.append(c)
     return cases, False
+
+
+def doc_of(case):
+    if case.get("doc") == "corr":
+        return CORR_DOC
+    return RULEDOC_REF if case.get("probe") == "drop" or case.get("doc") == "ref" else RULEDOC
 
 
 def group_yaml(prefix, g, d):
@@ -159,10 +255,19 @@ def run_impl(case):
         pl = ProcessingPipeline.from_dict(pipeline_dict(case))
     except Exception as e:
         return {"outcome": outcome_of_exception(e), "stage": "load", "msg": str(e)[:160]}
-    try:
-        if case.get("prior"):
+    prior_error = None
+    if case.get("prior"):
+        try:
             pl.apply(SigmaRule.from_dict(copy.deepcopy(PRIOR_DOC)))
-        rule = SigmaRule.from_dict(copy.deepcopy(RULEDOC_REF if case.get("probe") == "drop" else RULEDOC))
+        except Exception as e:     # the prior rule may hit the same raising condition; what matters is what remains visible
+            prior_error = outcome_of_exception(e)
+    try:
+        if case.get("doc") == "corr":
+            from sigma.correlations import SigmaCorrelationRule
+            rule = SigmaCorrelationRule.from_dict(copy.deepcopy(doc_of(case)))
+            pl.apply(rule)
+            return {"outcome": "ok", "fields": [], "sel": [], "flt": [], "applied": sorted(pl.applied_ids), "prior_error": prior_error, "group_by": list(rule.group_by or [])}
+        rule = SigmaRule.from_dict(copy.deepcopy(doc_of(case)))
         pl.apply(rule)
         out = []
 
@@ -175,21 +280,202 @@ def run_impl(case):
         walk(rule.detection.detections["sel"])
         nsel = len(out)
         walk(rule.detection.detections["flt"])
-        return {"outcome": "ok", "fields": out, "sel": out[:nsel], "flt": out[nsel:], "applied": sorted(pl.applied_ids)}
+        return {"outcome": "ok", "fields": out, "sel": out[:nsel], "flt": out[nsel:], "applied": sorted(pl.applied_ids), "prior_error": prior_error}
     except Exception as e:
-        return {"outcome": outcome_of_exception(e), "stage": "apply", "msg": str(e)[:160]}
+        return {"outcome": outcome_of_exception(e), "stage": "apply", "msg": str(e)[:160], "prior_error": prior_error}
 
 
-# ------------------------------------------------------------------ specification evaluator (documented meaning)
+# ------------------------------------------------------------------ reading of the rule document (trusted)
+def flat_items(doc):
+    """detection items in document order, nested lists flattened: (detection, field, values, is_reference)"""
+    out = []
+
+    def walk(name, d):
+        if isinstance(d, list):
+            for x in d:
+                walk(name, x)
+        elif isinstance(d, dict):
+            for k, v in d.items():
+                field, _, mod = k.partition("|")
+                vals = v if isinstance(v, list) else [v]
+                out.append((name, field, list(vals), mod == "fieldref"))
+    for name, d in doc.get("detection", {}).items():
+        if name != "condition":
+            walk(name, d)
+    return out
+
+
+def num_json(x):
+    d = Decimal(repr(x)) if isinstance(x, float) else Decimal(x)
+    e = max(0, -d.as_tuple().exponent)
+    return [int(d.scaleb(e)), e]
+
+
+def scalar_json(v):
+    if isinstance(v, bool):
+        return {"b": v}
+    if isinstance(v, (int, float)):
+        return {"n": num_json(v)}
+    return {"s": cps(v)}
+
+
+def value_json(v, ref):
+    if ref:
+        return {"ref": cps(v)}
+    if v is None:
+        return None
+    return scalar_json(v)
+
+
+def attr_json(name, v):
+    if name == "level":
+        return {"level": cps(v)}
+    if name == "status":
+        return {"status": cps(v)}
+    if name == "date":
+        y, m, d = v.split("-")
+        return {"date": [int(y), int(m), int(d)]}
+    if isinstance(v, bool) or v is None or isinstance(v, dict):
+        return "unsupported"
+    if isinstance(v, (int, float)):
+        return {"num": num_json(v)}
+    if isinstance(v, str):
+        return {"str": cps(v)}
+    if isinstance(v, list):
+        return {"list": [cps(str(x)) for x in v]}
+    return "unsupported"
+
+
+# attributes a SigmaRule object has although the document does not set them (None / objects): unsupported
+UNSET_ATTRS = ("author", "id", "description", "modified", "logsource", "detection", "custom_attributes", "source", "errors")
+
+
+def unset_attrs(doc):
+    """a correlation rule object has no logsource / detection attribute at all (the condition is then false, not an error)"""
+    return tuple(k for k in UNSET_ATTRS if k not in ("logsource", "detection")) if "correlation" in doc else UNSET_ATTRS
+
+
+def world_json(doc, seeded_applied=None):
+    items = [{"det": cps(d), "field": cps(f), "values": [value_json(v, ref) for v in vals],
+              "applied": [cps(x) for x in (seeded_applied or {}).get((d, f), [])]} for d, f, vals, ref in flat_items(doc)]
+    corr = "correlation" in doc
+    attrs = [[cps(k), attr_json(k, v)] for k, v in doc.items() if k not in ("logsource", "detection", "tags")]
+    attrs += [[cps(k), "unsupported"] for k in unset_attrs(doc) if k not in doc or k in ("logsource", "detection")]
+    ls = doc.get("logsource", {})
+    return {"kind": "correlation" if corr else "sigma", "refSources": [], "logsource": {k: (cps(ls[k]) if ls.get(k) is not None else None) for k in ("category", "product", "service")},
+            "items": items, "fields": [], "attrs": attrs, "tags": [cps(t) for t in doc.get("tags", [])]}
+
+
+def cond_json(c):
+    out = {}
+    for k, v in c.items():
+        if k in STR_KEYS:
+            out[k] = cps(v) if v is not None else None
+        elif k == "fields":
+            out[k] = [cps(x) for x in v]
+        elif k in ("value", "val"):
+            out[k] = scalar_json(v)
+        else:
+            out[k] = v
+    return out
+
+
+def group_json(g):
+    if "expr" in g:
+        link = {"expr": cps(g["expr"]), "ids": [cps(i) for i in g["ids"]]}
+    else:
+        link = "any" if g["link"] == "or" else "all"
+    return {"n": len(g["conds"]), "conds": [cond_json(c) for c in g["conds"]], "neg": g["neg"], "link": link}
+
+
+NOGROUP = {"conds": [], "neg": False, "link": None}
+
+
+def items_json(case, rule_group=None):
+    """the pipeline description for the specification, item by item as in pipeline_dict"""
+    out = []
+    for t in pipeline_dict(case)["transformations"][:-1]:
+        g = {"conds": t.get("rule_conditions", []), "neg": False, "link": None}
+        a = {"type": t["type"]}
+        if t["type"] == "set_state":
+            a.update(key=cps(t["key"]), val=scalar_json(t["val"]))
+        elif t["type"] == "field_name_mapping":
+            a["mapping"] = [[cps(k), cps(v)] for k, v in t["mapping"].items()]
+        elif t["type"] == "change_logsource":
+            a.update({k: (cps(t[k]) if t.get(k) is not None else None) for k in ("category", "product", "service")})
+        out.append({"id": cps(t["id"]), "rule": group_json(g), "det": group_json(NOGROUP), "field": group_json(NOGROUP), "action": a})
+    a = {"type": "drop_detection_item"} if case.get("probe") == "drop" else {"type": "field_name_suffix", "suffix": cps("_X")}
+    out.append({"id": cps("probe"), "rule": group_json(rule_group or case["rule"]), "det": group_json(case["det"]),
+                "field": group_json(case["field"]), "action": a})
+    return out
+
+
+def re_table(case):
+    doc = doc_of(case)
+    names, strings = set(), set()
+    for _, f, vals, ref in flat_items(doc):
+        names.add(f)
+        for v in vals:
+            (names if ref else strings).add(v) if isinstance(v, str) else None
+    names |= {"mappedB"}
+    vp = {c["pattern"] for c in case["det"]["conds"] if c["type"] == "match_string"}
+    fp = {p for c in case["field"]["conds"] if c.get("mode") == "re" for p in c["fields"]}
+    return [[cps(p), cps(s), re.match(p, s) is not None] for p in sorted(vp) for s in sorted(strings)] + \
+           [[cps(p), cps(s), re.match(p, s) is not None] for p in sorted(fp) for s in sorted(names)]
+
+
+# ------------------------------------------------------------------ recorded differences between documentation and code
+def d70_leaf(c):
+    return c["type"] == "rule_attribute" and c["attribute"] in INT_ATTRS and c.get("op", "eq") not in ("in", "not_in") \
+        and isinstance(c["value"], (int, float)) and not isinstance(c["value"], bool)
+
+
+def d71_leaf(c):
+    return c["type"] == "rule_attribute" and c.get("op") in ("in", "not_in") and c["attribute"] in ("level", "status", "date", "score", "ratio")
+
+
+def alt_request(case):
+    """the same case as the code reads it where a recorded finding applies (None if none applies)"""
+    quirks = []
+    rule_group = case["rule"]
+    if any(d70_leaf(c) for c in case["rule"]["conds"]):
+        quirks.append("D70")
+        true_leaf = {"type": "is_sigma_correlation_rule" if case.get("doc") == "corr" else "is_sigma_rule"}     # a condition that holds on this rule
+        rule_group = dict(case["rule"], conds=[true_leaf if d70_leaf(c) else c for c in case["rule"]["conds"]])
+    seeded = None
+    doc = doc_of(case)
+    if case["pre"]["map"] and doc is RULEDOC_REF and any(c["type"] == "processing_item_applied" and c["processing_item_id"] == "map"
+                                                          for c in case["det"]["conds"] + case["field"]["conds"]):
+        quirks.append("D72")
+        seeded = {(d, f): ["map"] for d, f, vals, ref in flat_items(doc) if ref and not any(v == "fieldB" for v in vals)}
+    if not quirks:
+        return None, []
+    return {"world": world_json(doc, seeded), "items": items_json(case, rule_group)}, quirks
+
+
+def make_request(case, impl, gen):
+    r = {"op": "gate.case", "world": world_json(doc_of(case)), "items": items_json(case), "re": re_table(case)}
+    alt, _ = alt_request(case)
+    if alt is not None:
+        r["alt"] = alt
+    g = gen.get("PipeCond")
+    if g:
+        r["grammar"] = {k: (cps(v) if isinstance(v, str) else [cps(x) for x in v] if isinstance(v, list) else v) for k, v in g.items()}
+    return r
+
+
+# ------------------------------------------------------------------ second implementation of the individual conditions (Python)
 def world(case):
     """state of the rule when the probe runs, from the documented effect of the pre-items"""
     pre = case["pre"]
-    w = {"state": {}, "applied": set(), "category": "cat", "product": "prod", "service": None,
-         "items": [{"det": d, "field": f, "values": v, "by": set(), "refs": list(REFS.get(f, []))}
-                   for d, f, v in (ITEMS_REF if case.get("probe") == "drop" else ITEMS)]}
+    doc = doc_of(case)
+    corr = "correlation" in doc
+    w = {"state": {}, "applied": set(), "category": None if corr else "cat", "product": None if corr else "prod", "service": None, "names": {}, "doc": doc, "corr": corr,
+         "items": [{"det": d, "field": f, "values": ([] if ref else v), "by": set(), "refs": (list(v) if ref else [])}
+                   for d, f, v, ref in flat_items(doc)]}
     if pre["state"]:
         c = pre["state_cond"]
-        if c is None or c.get("category") == "cat":
+        if c is None or (c.get("category") == "cat" and not corr):
             w["state"]["k"] = "v"; w["applied"].add("state")
     if pre["n5"]:
         w["state"]["n"] = 5; w["applied"].add("n5")
@@ -198,41 +484,92 @@ def world(case):
         for it in w["items"]:
             if it["field"] == "fieldB":
                 it["field"] = "mappedB"; it["by"].add("map")
+            if "fieldB" in it["refs"]:
+                it["refs"] = ["mappedB" if x == "fieldB" else x for x in it["refs"]]; it["by"].add("map")
+                w["names"].setdefault("mappedB", set()).add("map"); w["names"].setdefault("fieldB", set()).add("map")
     if pre["logsrc"]:
-        w["applied"].add("ls"); w["category"] = "newcat"; w["product"] = None; w["service"] = None
+        w["applied"].add("ls")
+        if not corr:
+            w["category"] = "newcat"; w["product"] = None; w["service"] = None
     return w
+
+
+def same_kind(a, b):
+    num = lambda x: isinstance(x, (int, float))
+    return (isinstance(a, str) and isinstance(b, str)) or (num(a) and num(b))
 
 
 def state_cond(w, c):
     if c["key"] not in w["state"]:
         return False
     sv, v, op = w["state"][c["key"]], c["val"], c.get("op", "eq")
-    return {"eq": sv == v, "ne": sv != v, "gte": (sv >= v) if type(sv) == type(v) else False, "gt": False, "lte": False, "lt": False}[op]
+    if op in ("eq", "ne"):
+        return (same_kind(sv, v) and sv == v) == (op == "eq")
+    if not same_kind(sv, v):
+        return False
+    return {"gte": sv >= v, "gt": sv > v, "lte": sv <= v, "lt": sv < v}[op]
+
+
+def value_eq(v, p):
+    """a detection item value equals a parameter: same kind (string / number / boolean) and equal"""
+    if isinstance(v, bool) or isinstance(p, bool):
+        return isinstance(v, bool) and isinstance(p, bool) and v == p
+    if isinstance(v, str) or isinstance(p, str):
+        return isinstance(v, str) and isinstance(p, str) and v == p
+    return v is not None and v == p
+
+
+def attr_cond(w, c):
+    """None = raises SigmaConfigurationError"""
+    doc, name, v, op = w["doc"], c["attribute"], c["value"], c.get("op", "eq")
+    if name not in doc or name in ("logsource", "detection", "tags"):
+        return None if name in unset_attrs(doc) else False
+    a = doc[name]
+    rel = lambda x, y: {"eq": x == y, "ne": x != y, "gte": x >= y, "gt": x > y, "lte": x <= y, "lt": x < y}[op]
+    if isinstance(a, list):
+        return {"in": v in a, "not_in": v not in a, "ne": True}.get(op, False)
+    if name in ("level", "status"):
+        order = LEVELS if name == "level" else STATUSES
+        if op in ("in", "not_in") or not isinstance(v, str) or v.lower() not in order:
+            return None
+        return rel(order.index(a), order.index(v.lower()))
+    if name == "date":
+        if op in ("in", "not_in") or not isinstance(v, str) or not re.fullmatch(r"\d{4}-\d{2}-\d{2}", v):
+            return None
+        return rel(a, v)               # ISO dates of equal length order like their text
+    if isinstance(a, str):
+        return (a == v) == (op == "eq") if op in ("eq", "ne") else None
+    if isinstance(a, (int, float)):
+        if op in ("in", "not_in"):
+            return None
+        if isinstance(v, str):
+            if not re.fullmatch(r"[+-]?\d+", v):
+                return None
+            v = int(v)
+        return rel(a, v)
+    return None
 
 
 def rule_cond(w, c):
     t = c["type"]
-    if t == "logsource":
-        return all(c.get(k) is None or c.get(k) == w[k] for k in ("category", "product", "service"))
+    if t == "logsource":       # a correlation rule matches through the rules it refers to; none is resolved here
+        return not w["corr"] and all(c.get(k) is None or c.get(k) == w[k] for k in ("category", "product", "service"))
     if t == "contains_field":
         return any(it["field"] == c["field"] for it in w["items"])
     if t == "contains_detection_item":
-        return any(it["field"] == c["field"] and any(type(v) == type(c["value"]) and v == c["value"] for v in it["values"]) for it in w["items"])
+        return any(it["field"] == c["field"] and any(value_eq(v, c["value"]) for v in it["values"]) for it in w["items"])
     if t == "processing_item_applied":
         return c["processing_item_id"] in w["applied"]
     if t == "processing_state":
         return state_cond(w, c)
     if t == "is_sigma_rule":
-        return True
+        return not w["corr"]
     if t == "is_sigma_correlation_rule":
-        return False
+        return w["corr"]
     if t == "rule_attribute":
-        if c["attribute"] == "level":
-            order = ["informational", "low", "medium", "high", "critical"]
-            return order.index("high") >= order.index(c["value"])
-        return c["value"] == "t"
+        return bool(attr_cond(w, c))
     if t == "tag":
-        return c["tag"] == "attack.t1234"
+        return c["tag"] in w["doc"].get("tags", [])
     raise KeyError(t)
 
 
@@ -243,17 +580,18 @@ def has_wild(v):
 def det_cond(w, it, c):
     t = c["type"]
     f = any if c.get("cond") == "any" else all
+    vals = it["values"] + [("ref", x) for x in it["refs"]]       # a reference is a value that no value condition recognises
     if t == "match_string":
         def m(v):
             r = isinstance(v, str) and re.match(c["pattern"], v) is not None
             return (not r) if c.get("negate") else r
-        return f(m(v) for v in it["values"])
+        return f(m(v) for v in vals)
     if t == "match_value":
-        return f((v is not None and type(v) == type(c["value"]) and v == c["value"]) for v in it["values"])
+        return f((not isinstance(v, tuple) and v is not None and value_eq(v, c["value"])) for v in vals)
     if t == "contains_wildcard":
-        return f(has_wild(v) for v in it["values"])
+        return f(has_wild(v) for v in vals)
     if t == "is_null":
-        return f(v is None for v in it["values"])
+        return f(v is None for v in vals)
     if t == "processing_item_applied":
         return c["processing_item_id"] in it["by"]
     if t == "processing_state":
@@ -261,68 +599,113 @@ def det_cond(w, it, c):
     raise KeyError(t)
 
 
-def field_cond(w, it, c):
+def field_cond_name(w, name, c):
     t = c["type"]
     if t in ("include_fields", "exclude_fields"):
-        def on(name):
-            if c.get("mode") == "re":
-                r = any(re.match(p, name) for p in c["fields"])
-            else:
-                r = name in c["fields"]
-            return r if t == "include_fields" else not r
-        return on(it["field"]) or any(on(x) for x in it.get("refs", []))
+        if c.get("mode") == "re":
+            r = any(re.match(p, name) for p in c["fields"])
+        else:
+            r = name in c["fields"]
+        return r if t == "include_fields" else not r
     if t == "processing_state":
         return state_cond(w, c)
+    if t == "processing_item_applied":
+        return c["processing_item_id"] in w["names"].get(name, set())
     raise KeyError(t)
 
 
-def group_json(g):
-    if "expr" in g:
-        link = {"expr": cps(g["expr"]), "ids": [cps(i) for i in g["ids"]]}
-    else:
-        link = "any" if g["link"] == "or" else "all"
-    return {"n": len(g["conds"]), "neg": g["neg"], "link": link}
+def field_cond_item(w, it, c):
+    if c["type"] == "processing_item_applied":
+        return c["processing_item_id"] in it["by"]
+    return field_cond_name(w, it["field"], c) or any(field_cond_name(w, x, c) for x in it["refs"])
 
 
-def make_request(case, impl, gen):
+def python_leaves(case):
     w = world(case)
-    r = {"op": "gate.eval", "rule": group_json(case["rule"]), "det": group_json(case["det"]), "field": group_json(case["field"]),
-         "rr": [rule_cond(w, c) for c in case["rule"]["conds"]],
-         "targets": [{"dr": [det_cond(w, it, c) for c in case["det"]["conds"]], "fr": [field_cond(w, it, c) for c in case["field"]["conds"]]}
-                     for it in w["items"]]}
-    g = gen.get("PipeCond")
-    if g:
-        r["grammar"] = {k: (cps(v) if isinstance(v, str) else [cps(x) for x in v] if isinstance(v, list) else v) for k, v in g.items()}
-    return r
+    return {"rule": [rule_cond(w, c) for c in case["rule"]["conds"]],
+            "ruleRaises": [c["type"] == "rule_attribute" and attr_cond(w, c) is None for c in case["rule"]["conds"]],
+            "det": [[det_cond(w, it, c) for c in case["det"]["conds"]] for it in w["items"]],
+            "fieldOnItem": [[field_cond_item(w, it, c) for c in case["field"]["conds"]] for it in w["items"]],
+            "fieldOnName": [[field_cond_name(w, it["field"], c) for c in case["field"]["conds"]] for it in w["items"]]}
+
+
+def uncps_(a):
+    return None if a is None else "".join(chr(x) for x in a)
+
+
+def observed(case, impl, before):
+    if case.get("probe") == "drop":
+        return [b["field"] not in impl[b["det"]] for b in before]
+    return [f.endswith("_X") for f in impl["fields"]]
 
 
 def judge(case, impl, reply):
     io = impl["outcome"]
-    key = (case["pre"], case["rule"], case["det"], case["field"], case.get("probe"), case.get("prior"))
+    key = (case["pre"], case["rule"], case["det"], case["field"], case.get("probe"), case.get("prior"), case.get("doc"))
     nconds = sum(len(case[k]["conds"]) for k in ("rule", "det", "field"))
     nt = nconds >= 1
-    tags = [f"impl:{io.split(':')[0]}", f"conds:{nconds}", f"probe:{case.get('probe', 'suffix')}", f"prior:{bool(case.get('prior'))}"] + [f"{k}:{'expr' if 'expr' in case[k] else case[k]['link']}/{len(case[k]['conds'])}/{'neg' if case[k]['neg'] else 'pos'}" for k in ("rule", "det", "field")]
-    if io.startswith("other:"):
-        return Verdict("violation", f"{io} at {impl.get('stage')}: {impl.get('msg')} for pipeline {pipeline_dict(case)}", nt, key, tags=tuple(tags))
+    kinds = sorted({f"{k}:{c['type']}" for k in ("rule", "det", "field") for c in case[k]["conds"]})
+    tags = [f"impl:{io.split(':')[0]}", f"conds:{nconds}", f"probe:{case.get('probe', 'suffix')}", f"prior:{bool(case.get('prior'))}", f"doc:{'ref' if doc_of(case) is RULEDOC_REF else case.get('doc', 'plain')}"] + \
+           [f"{k}:{'expr' if 'expr' in case[k] else case[k]['link']}/{len(case[k]['conds'])}/{'neg' if case[k]['neg'] else 'pos'}" for k in ("rule", "det", "field")] + \
+           [f"kind:{k}" for k in kinds]
+    probe_yaml = pipeline_dict(case)['transformations'][-1]
     if reply.get("exprError"):
         if io.startswith("sigma:"):
             return Verdict("ok", "", nt, key, tags=tuple(tags + ["expr-rejected"]))
+        if io.startswith("other:"):
+            return Verdict("violation", f"{io} at {impl.get('stage')}: {impl.get('msg')} for pipeline {pipeline_dict(case)}", nt, key, tags=tuple(tags))
         return Verdict("drift", f"model cannot read an expression the implementation accepts: {[case[k].get('expr') for k in ('rule','det','field')]}", nt, key, tags=tuple(tags))
+    if reply["raises"]:
+        bad = [c for c, r in zip(case["rule"]["conds"], reply["leaves"]["ruleRaises"]) if r]
+        if io == "sigma:SigmaConfigurationError" and impl.get("stage") == "apply":
+            return Verdict("ok", "", nt, key, tags=tuple(tags + ["raises"]))
+        fid = "D71" if io == "other:KeyError" and any(d71_leaf(c) for c in bad) else None
+        return Verdict("violation", (f"rule condition {bad[0] if bad else probe_yaml} is documented to raise SigmaConfigurationError when evaluated on the rule "
+                                     f"(level high, status test, date 2024-01-05, title 't', ratio 2.5); observed: {io} {impl.get('msg', '') if io != 'ok' else ''}"),
+                       nt, key, finding=fid, tags=tuple(tags + ["raises"]))
+    if io.startswith("other:"):
+        return Verdict("violation", f"{io} at {impl.get('stage')}: {impl.get('msg')} for pipeline {pipeline_dict(case)}", nt, key, tags=tuple(tags))
     if io.startswith("sigma:"):
-        return Verdict("violation", f"valid pipeline rejected at {impl.get('stage')}: {io} {impl.get('msg')} :: {pipeline_dict(case)['transformations'][-1]}", nt, key, tags=tuple(tags))
+        return Verdict("violation", f"valid pipeline rejected at {impl.get('stage')}: {io} {impl.get('msg')} :: {probe_yaml}", nt, key, tags=tuple(tags))
+    before = [{"det": uncps_(b["det"]), "field": uncps_(b["field"]), "applied": [uncps_(x) for x in b["applied"]]} for b in reply["before"]]
     w = world(case)
-    if case.get("probe") == "drop":
-        got = [it["field"] not in impl[it["det"]] for it in w["items"]]
-    else:
-        got = [f.endswith("_X") for f in impl["fields"]]
-    want = reply["onDet"]
-    if got != want:
-        i = next(k for k, (a, b) in enumerate(zip(got, want)) if a != b)
-        it = w["items"][i]
-        return Verdict("violation", (f"probe {pipeline_dict(case)['transformations'][-1]} {'acted on' if got[i] else 'did not act on'} detection item "
-                                     f"{it['det']}.{it['field']} = {it['values']} although its conditions evaluate to {want[i]} there "
-                                     f"(pre-items: {case['pre']}{'; the pipeline object converted another rule (log source category zzz) first' if case.get('prior') else ''})"),
-                       nt, key, tags=tuple(tags))
-    if ("probe" in impl["applied"]) != reply["onRule"]:
-        return Verdict("violation", f"probe recorded as applied={'probe' in impl['applied']} but its rule conditions evaluate to {reply['onRule']}: {pipeline_dict(case)['transformations'][-1]}", nt, key, tags=tuple(tags))
+    pre_txt = f"(pre-items: {case['pre']}{'; the pipeline object converted another rule (log source category zzz) first' if case.get('prior') else ''})"
+
+    def compare(rep):
+        got, want = observed(case, impl, before), rep["onDet"]
+        if got != want:
+            i = next(k for k, (a, b) in enumerate(zip(got, want)) if a != b) if len(got) == len(want) else 0
+            it = w["items"][i]
+            g = reply["groups"]
+            return (f"probe {probe_yaml} {'acted on' if got[i] else 'did not act on'} detection item "
+                    f"{before[i]['det']}.{before[i]['field']} = {it['values'] or ['fieldref ' + x for x in it['refs']]} although its conditions evaluate to {want[i]} there "
+                    f"[rule group {rep['onRule']}, detection-item group {g['det'][i]}, field-name group on the item {g['fieldOnItem'][i]}, on its field name {g['fieldOnName'][i]}; "
+                    f"conditions one by one: rule {reply['leaves']['rule']}, detection item {reply['leaves']['det'][i]}, field name {reply['leaves']['fieldOnItem'][i]}] {pre_txt}")
+        if ("probe" in impl["applied"]) != rep["onRule"]:
+            return f"probe recorded as applied={'probe' in impl['applied']} but its rule conditions evaluate to {rep['onRule']} (one by one: {reply['leaves']['rule']}): {probe_yaml} {pre_txt}"
+        want_applied = sorted(uncps_(x) for x in rep["applied"])
+        if impl["applied"] != want_applied:
+            return f"items recorded as applied to the rule: {impl['applied']}, expected {want_applied} for pipeline {pipeline_dict(case)['transformations']}"
+        after = {}
+        for a in rep["after"]:
+            after.setdefault(uncps_(a["det"]), []).append(uncps_(a["field"]))
+        for d in ("sel", "flt"):
+            if impl[d] != after.get(d, []):
+                return f"field names of detection {d} after the pipeline: {impl[d]}, expected {after.get(d, [])} for pipeline {pipeline_dict(case)['transformations']}"
+        return None
+    what = compare(reply)
+    if what is not None:
+        fid = None
+        if "alt" in reply and not reply["alt"].get("exprError") and not reply["alt"]["raises"] and compare(reply["alt"]) is None:
+            fid = alt_request(case)[1][0]
+        return Verdict("violation", what, nt, key, finding=fid, tags=tuple(tags))
+    # second implementation of the leaves: any disagreement with Lean is drift (one of them misreads the documentation)
+    py = python_leaves(case)
+    for k in ("rule", "ruleRaises", "det", "fieldOnItem", "fieldOnName"):
+        if py[k] != reply["leaves"][k]:
+            return Verdict("drift", f"Python evaluator and Lean specification disagree on the {k} conditions: python {py[k]} lean {reply['leaves'][k]} for {case[{'ruleRaises': 'rule', 'fieldOnItem': 'field', 'fieldOnName': 'field'}.get(k, k)]['conds']} {pre_txt}", nt, key, tags=tuple(tags))
+    if [(b["det"], b["field"], sorted(b["applied"])) for b in before] != [(it["det"], it["field"], sorted(it["by"])) for it in w["items"]]:
+        return Verdict("drift", f"Python evaluator and Lean specification disagree on the rule after the pre-items: {before} vs {w['items']}", nt, key, tags=tuple(tags))
+    if reply.get("clash"):
+        return Verdict("drift", "a processing_state condition orders a string against a number (outside the documented meaning; must not be generated)", nt, key, tags=tuple(tags))
     return Verdict("ok", "", nt, key, tags=tuple(tags))
